@@ -589,48 +589,50 @@ def isNearestPow2 (w : Nat) (x r : BitVec w) : Bool :=
   if x == floorPow2 x w then r == x
   else (r' == f && (x' - f).ule (c - x')) || (r' == c && (c - x').ule (x' - f))
 
-/-- floor(log2 x) for x > 0 as a number: the index of the highest set bit among the lowest n bits, -1 if none -/
-def highestBit {w : Nat} (x : BitVec w) : Nat → Int
-  | 0 => -1
-  | k+1 => if bit x k then k else highestBit x k
+/-- bit number `i` (given as an int) of `x` -/
+def bitAt {w : Nat} (x : BitVec w) (i : BitVec 32) : Bool := (x >>> i) &&& 1 == 1
+/-- the value with exactly bit `i` (an int) set -/
+def oneAtV (w : Nat) (i : BitVec 32) : BitVec w := (1 : BitVec w) <<< i
+
+/-- floor(log2 x): the index (as an int) of the highest set bit among the lowest n bits, -1 if there is none -/
+def highestBit {w : Nat} (x : BitVec w) : Nat → BitVec 32
+  | 0 => 0xFFFFFFFF#32
+  | k+1 => if bit x k then BitVec.ofNat 32 k else highestBit x k
 /-- the value of the lowest set bit, scanning positions i, i+1, … ; 0 if none -/
 def lowestSet {w : Nat} (x : BitVec w) (i : Nat) : Nat → BitVec w
   | 0 => 0
   | fuel+1 => if bit x i then oneAt w i else lowestSet x (i+1) fuel
-/-- number of set bits among the lowest n bits -/
-def popCount {w : Nat} (x : BitVec w) : Nat → Nat
-  | 0 => 0
-  | k+1 => (if bit x k then 1 else 0) + popCount x k
-/-- number of leading zeros of a 32-bit value: zeros above the highest set bit -/
-def nlz (x : BitVec 32) : Int := 31 - highestBit x 32
+/-- number of leading zeros of a 32-bit value: the zeros above the highest set bit (32 for x = 0) -/
+def nlz (x : BitVec 32) : BitVec 32 := 31 - highestBit x 32
 
-/-- position of the n-th (n ≥ 1) set bit counted from bit 0, scanning positions i, i+1, … (fuel positions); -1 if
-    there are fewer than n set bits -/
-def nthSetBit {w : Nat} (x : BitVec w) (n : Nat) (i : Nat) : Nat → Int
-  | 0 => -1
-  | fuel+1 => if bit x i then (if n ≤ 1 then i else nthSetBit x (n-1) (i+1) fuel) else nthSetBit x n (i+1) fuel
-def findNSB {w : Nat} (x : BitVec w) (n : Nat) : Int := nthSetBit x n 0 w
+/-- position of the n-th (n ≥ 1, an int) set bit counted from bit 0, scanning positions i, i+1, … (fuel
+    positions); -1 if there are fewer than n set bits -/
+def nthSetBit {w : Nat} (x : BitVec w) (n : BitVec 32) (i : Nat) : Nat → BitVec 32
+  | 0 => 0xFFFFFFFF#32
+  | fuel+1 => if bit x i then (if n == 1 then BitVec.ofNat 32 i else nthSetBit x (n - 1) (i+1) fuel)
+              else nthSetBit x n (i+1) fuel
+def findNSB {w : Nat} (x : BitVec w) (n : BitVec 32) : BitVec 32 := nthSetBit x n 0 w
 
-/-- "a mask of `n` bits": bits 0 … min(n,w)-1 set -/
-def mask (w n : Nat) : Nat → BitVec w
+/-- "a mask of `n` bits" (n read as unsigned): bits k < n set, k < w -/
+def mask (w : Nat) (n : BitVec w) : Nat → BitVec w
   | 0 => 0
-  | k+1 => (if k < n then oneAt w k else 0) ||| mask w n k
-/-- bits [first, first+count) set -/
-def range (w first count : Nat) : Nat → BitVec w
+  | k+1 => (if (BitVec.ofNat w k).ult n then oneAt w k else 0) ||| mask w n k
+/-- bits first ≤ k < first + count set (first, count: non-negative ints) -/
+def range (w : Nat) (first count : BitVec 32) : Nat → BitVec w
   | 0 => 0
-  | k+1 => (if first ≤ k ∧ k < first + count then oneAt w k else 0) ||| range w first count k
-def fillOne {w : Nat} (v : BitVec w) (first count : Nat) : BitVec w := v ||| range w first count w
-def fillZero {w : Nat} (v : BitVec w) (first count : Nat) : BitVec w := v &&& ~~~ range w first count w
+  | k+1 => (if first.ule (BitVec.ofNat 32 k) && (BitVec.ofNat 32 k).ult (first + count) then oneAt w k else 0) ||| range w first count k
+def fillOne {w : Nat} (v : BitVec w) (first count : BitVec 32) : BitVec w := v ||| range w first count w
+def fillZero {w : Nat} (v : BitVec w) (first count : BitVec 32) : BitVec w := v &&& ~~~ range w first count w
 
-/-- rotate right by s (0 ≤ s): "bits dropped on the right are inserted back on the left":
-    bit i of the result is bit (i + s) mod w of x -/
-def rotr {w : Nat} (x : BitVec w) (s : Nat) : Nat → BitVec w
+/-- rotate right by s (an int, 0 ≤ s ≤ w): "bits dropped on the right are inserted back on the left":
+    bit k of the result is bit (k + s) mod w of x -/
+def rotr {w : Nat} (x : BitVec w) (s : BitVec 32) : Nat → BitVec w
   | 0 => 0
-  | k+1 => (if bit x ((k + s) % w) then oneAt w k else 0) ||| rotr x s k
-/-- rotate left by s: bit (i + s) mod w of the result is bit i of x -/
-def rotl {w : Nat} (x : BitVec w) (s : Nat) : Nat → BitVec w
+  | k+1 => (if bitAt x ((BitVec.ofNat 32 k + s) % BitVec.ofNat 32 w) then oneAt w k else 0) ||| rotr x s k
+/-- rotate left by s: bit (k + s) mod w of the result is bit k of x -/
+def rotl {w : Nat} (x : BitVec w) (s : BitVec 32) : Nat → BitVec w
   | 0 => 0
-  | k+1 => (if bit x k then oneAt w ((k + s) % w) else 0) ||| rotl x s k
+  | k+1 => (if bit x k then oneAtV w ((BitVec.ofNat 32 k + s) % BitVec.ofNat 32 w) else 0) ||| rotl x s k
 
 /-- interleave: bit i of the k-th of n arguments (argument width wi) goes to bit n·i + k of the 64-bit result
     (bits that would land beyond bit 63 are dropped: the 3×32 overload returns 64 bits) -/
